@@ -153,6 +153,9 @@ pub struct ConstDef {
     pub decl: Option<String>,
     /// WGSL initialiser expression text
     pub expr: String,
+    /// the value the harness computed independently for plain literals ("f32:<bits>", "i32:<dec>", ...)
+    #[serde(default, skip_serializing_if = "Option::is_none")]
+    pub expect: Option<String>,
 }
 
 #[derive(Deserialize, Serialize, Clone, Debug)]
